@@ -22,6 +22,27 @@ import time
 from concurrent.futures import ThreadPoolExecutor
 
 
+HAVE_CC = bool(shutil.which('cc') and shutil.which('ar'))
+
+
+def make_archive(objdir, version, cache):
+    """libfoo.a whose foo_version() returns `version` (cc + ar rcsD: deterministic bytes)"""
+    if version in cache:
+        return cache[version]
+    os.makedirs(objdir, exist_ok=True)
+    open(os.path.join(objdir, 'foo.c'), 'w').write('int foo_version(void) { return %d; }\n' % version)
+    env = {'PATH': os.environ.get('PATH', '/usr/bin:/bin')}
+    a = os.path.join(objdir, 'libfoo.a')
+    if os.path.exists(a):
+        os.remove(a)
+    r1 = subprocess.run(['cc', '-c', 'foo.c', '-o', 'foo.o'], cwd=objdir, env=env, stdout=subprocess.PIPE, stderr=subprocess.PIPE, timeout=120)
+    r2 = subprocess.run(['ar', 'rcsD', 'libfoo.a', 'foo.o'], cwd=objdir, env=env, stdout=subprocess.PIPE, stderr=subprocess.PIPE, timeout=120)
+    if r1.returncode or r2.returncode:
+        raise RuntimeError('cc/ar failed: %r %r' % (r1.stderr[-200:], r2.stderr[-200:]))
+    cache[version] = open(a, 'rb').read()
+    return cache[version]
+
+
 def real_rustc():
     """the toolchain's rustc, not the rustup proxy"""
     try:
@@ -137,6 +158,10 @@ class Crate:
         self.crate_type = rng.choice(['lib', 'rlib', 'lib'])
         self.out_dir = 'out'
         self.cwd = 'w'
+        self.reg = None                    # option_env!("CARGO_REGISTRIES_MIRROR_TOKEN"): a CARGO_* name the key's CARGO_ loop skips
+        self.have_cc = HAVE_CC
+        self.natives = ['own', 'fallback'] # both hold libfoo.a; command-line order is not the sorted order
+        self.foo = {'own': 1, 'fallback': 100}
         self.edits = 0
         lib = ['#![allow(dead_code)]\n', 'extern crate dep;\n', 'pub mod alpha;\n', 'pub mod beta;\n',
                '#[path = "sp ace.rs"]\npub mod spaced;\n',
@@ -146,7 +171,11 @@ class Crate:
                '#[cfg(feature = "fast")]\npub fn fast() -> u32 { 1 }\n',
                '#[cfg(not(feature = "fast"))]\npub fn fast() -> u32 { 0 }\n',
                '#[cfg(zed)]\npub fn zed() -> u32 { 26 }\n',
-               'pub fn usedep() -> u32 { dep::f() + %d }\n' % rng.below(100)]
+               'pub fn usedep() -> u32 { dep::f() + %d }\n' % rng.below(100),
+               'pub fn reg() -> Option<&\'static str> { option_env!("CARGO_REGISTRIES_MIRROR_TOKEN") }\n',
+               'pub fn lint_probe() -> u32 { let unused_probe = 3; 4 }\n']
+        if self.have_cc:
+            lib.append('extern "C" { fn foo_version() -> i32; }\npub fn foov() -> i32 { unsafe { foo_version() } }\n')
         self.files['src/lib.rs'] = ''.join(lib)
         self.files['src/alpha.rs'] = 'pub fn a() -> u32 { %d }\n' % rng.below(1000)
         self.files['src/beta.rs'] = 'pub mod inner;\npub fn b() -> u32 { inner::deep() }\n'
@@ -157,17 +186,22 @@ class Crate:
 
     def snapshot(self):
         return (dict(self.files), dict(self.env), self.vv, list(self.cfgs), list(self.lpaths), self.dep_version,
-                list(self.extra), self.out_dir, self.cwd)
+                list(self.extra), self.out_dir, self.cwd, self.reg, list(self.natives), dict(self.foo))
 
     def restore(self, snap):
-        (f, e, self.vv, c, l, self.dep_version, x, self.out_dir, self.cwd) = snap
+        (f, e, self.vv, c, l, self.dep_version, x, self.out_dir, self.cwd, self.reg, n, foo) = snap
         self.files, self.env, self.cfgs, self.lpaths, self.extra = dict(f), dict(e), list(c), list(l), list(x)
+        self.natives, self.foo = list(n), dict(foo)
 
     def argv(self):
         a = ['--crate-name', self.name, '--edition=2021', 'src/lib.rs', '--crate-type', self.crate_type,
              '--emit=' + self.emit, '--out-dir', self.out_dir]
         for c in self.cfgs:
             a += ['--cfg', c]
+        if self.have_cc:
+            a += ['-l', 'static=foo']
+            for d in self.natives:
+                a += ['-L', 'native=' + d]
         for l in self.lpaths:
             a += ['-L', l]
         a += ['--extern', 'dep=deps/libdep.rlib']
@@ -178,6 +212,8 @@ class Crate:
         e.update(self.env)
         if self.vv is not None:
             e['VV'] = self.vv
+        if self.reg is not None:
+            e['CARGO_REGISTRIES_MIRROR_TOKEN'] = self.reg
         return e
 
     def fingerprint_no_extra(self):
@@ -188,7 +224,11 @@ class Crate:
         """every input the property names; --cfg as a multiset, -L order ignored"""
         return (tuple(sorted(self.files.items())), tuple(sorted((k, v) for k, v in self.env.items() if k.startswith('CARGO_'))),
                 ('set', self.vv) if self.vv is not None else ('unset',), tuple(sorted(self.cfgs)), tuple(sorted(self.lpaths)),
-                self.dep_version, tuple(self.extra), self.emit, self.crate_type, self.cwd, self.out_dir if with_out_dir else None)
+                self.dep_version, tuple(self.extra), self.emit, self.crate_type, self.cwd,
+                ('set', self.reg) if self.reg is not None else ('unset',),
+                # the static library: the search directories in order, and the archive rustc takes (the first one's)
+                (tuple(self.natives), self.foo[self.natives[0]]) if self.have_cc else None,
+                self.out_dir if with_out_dir else None)
 
     def source_files(self):
         return sorted(self.files)
@@ -225,17 +265,40 @@ STEPS = {
     'outdir': lambda c: setattr(c, 'out_dir', 'out2' if c.out_dir == 'out' else 'out'),
     'cwd_swap': lambda c: setattr(c, 'cwd', 'w2' if c.cwd == 'w' else 'w'),
     'revert_all': lambda c: c.restore(c.initial),
+    # a CARGO_REGISTRIES_* variable read through option_env!
+    'reg_set': lambda c: setattr(c, 'reg', 't0'),
+    'reg_change': lambda c: setattr(c, 'reg', (c.reg or '') + 'x'),
+    'reg_empty': lambda c: setattr(c, 'reg', ''),
+    'reg_unset': lambda c: setattr(c, 'reg', None),
+    # lint level flags: the later one wins in rustc, so the order is an input
+    'lint_da': lambda c: setattr(c, 'extra', ['-C', 'opt-level=1', '-D', 'unused_variables', '-A', 'unused_variables']),
+    'lint_ad': lambda c: setattr(c, 'extra', ['-C', 'opt-level=1', '-A', 'unused_variables', '-D', 'unused_variables']),
+    'lint_wa': lambda c: setattr(c, 'extra', ['-C', 'opt-level=1', '--warn', 'unused', '-A', 'unused_variables']),
+    'lint_aw': lambda c: setattr(c, 'extra', ['-C', 'opt-level=1', '-A', 'unused_variables', '--warn', 'unused']),
+    # the static library exists in both search directories: rustc takes the one named first
+    'static_first_edit': lambda c: bump_foo(c, 0),
+    'static_second_edit': lambda c: bump_foo(c, 1),
+    'static_swap': lambda c: setattr(c, 'natives', c.natives[::-1]),
 }
+
+
+def bump_foo(c, i):
+    c.edits += 1
+    c.foo[c.natives[i]] = 1000 + c.edits
 
 FIXED_HISTORIES = [
     ['same', 'vv_empty', 'vv_value', 'vv_unset', 'vv_empty', 'edit_lib', 'vv_unset', 'revert_all'],
     ['args_split', 'args_merged', 'args_split', 'cfg_swap', 'l_swap', 'cfg_toggle', 'cfg_toggle', 'args_plain', 'outdir', 'outdir'],
     ['edit_lib', 'edit_mod', 'edit_nested', 'edit_included', 'edit_spaced', 'same', 'cwd_swap', 'same', 'cwd_swap', 'revert_all'],
     ['extern_v2', 'extern_v1', 'cargo_ver', 'unrelated_env', 'broken', 'broken', 'unbreak', 'warn', 'same'],
+    ['reg_set', 'reg_change', 'reg_empty', 'reg_unset', 'reg_set', 'lint_da', 'lint_ad', 'lint_da', 'lint_wa', 'lint_aw', 'lint_wa', 'args_plain'],
+    ['static_first_edit', 'same', 'static_second_edit', 'static_swap', 'static_first_edit', 'static_swap', 'static_second_edit',
+     'static_first_edit', 'revert_all'],
 ]
 RANDOM_POOL = ['same', 'edit_lib', 'edit_mod', 'edit_nested', 'edit_spaced', 'edit_included', 'vv_empty', 'vv_value',
                'vv_unset', 'cargo_ver', 'unrelated_env', 'cfg_swap', 'cfg_toggle', 'l_swap', 'extern_v2', 'extern_v1',
-               'args_split', 'args_merged', 'args_plain', 'warn', 'revert_all', 'cwd_swap']
+               'args_split', 'args_merged', 'args_plain', 'warn', 'revert_all', 'cwd_swap', 'reg_set', 'reg_change', 'reg_empty',
+               'reg_unset', 'lint_da', 'lint_ad', 'lint_wa', 'lint_aw', 'static_first_edit', 'static_second_edit', 'static_swap']
 
 
 def read_dir(d):
@@ -296,6 +359,8 @@ def run_history(sccache, rustc, rng, idx, steps, scratch):
             return res
         crate.initial = crate.snapshot()
         written_in = {'w': {}, 'w2': {}}
+        foo_in = {'w': {}, 'w2': {}}
+        archive_cache = {}
         dep_in = {'w': None, 'w2': None}
         w0 = w
         seen_full = set()
@@ -311,6 +376,15 @@ def run_history(sccache, rustc, rng, idx, steps, scratch):
             if dep_in[crate.cwd] != crate.dep_version:
                 open(os.path.join(w, 'deps', 'libdep.rlib'), 'wb').write(dep_bytes[crate.dep_version])
                 dep_in[crate.cwd] = crate.dep_version
+            archives = {}
+            if crate.have_cc:
+                for d, ver in crate.foo.items():
+                    data = make_archive(os.path.join(root, 'obj'), ver, archive_cache)
+                    archives[d + '/libfoo.a'] = data
+                    if foo_in[crate.cwd].get(d) != ver:
+                        os.makedirs(os.path.join(w, d), exist_ok=True)
+                        open(os.path.join(w, d, 'libfoo.a'), 'wb').write(data)
+                        foo_in[crate.cwd][d] = ver
             argv = crate.argv()
             env = crate.environment(srv.base_env)
             # what sccache asks rustc for the key: the dep-info of this state (used for the model's prediction)
@@ -367,7 +441,7 @@ def run_history(sccache, rustc, rng, idx, steps, scratch):
                 'stderr_sccache': err_s.decode('utf-8', 'replace')[-400:],
                 'depinfo': depinfo, 'direct_dep_file': files_d.get(crate.name + '.d'),
                 'files': dict(crate.files), 'dep_version': crate.dep_version, 'dep_bytes': dep_bytes[crate.dep_version],
-                'sources': crate.source_files(), 'compiled_ok': rc_d == 0, 'out_dir': crate.out_dir, 'cwd': crate.cwd, 'entry_out_dir': stored_from.get(fp_nodir), 's22_with': s22_with,
+                'sources': crate.source_files(), 'compiled_ok': rc_d == 0, 'out_dir': crate.out_dir, 'cwd': crate.cwd, 'entry_out_dir': stored_from.get(fp_nodir), 's22_with': s22_with, 'archives': archives,
             })
         return res
     except Exception as e:  # report, never hide
